@@ -10,7 +10,7 @@ use crate::runner::{guard, Case, SubCheck};
 
 fn idempotent(ch: &mut Choices, case: &mut Case) -> Result<(), String> {
     let base_year = 2020;
-    let cfg = Cfg { max_rules: 5, base_year, dense: ch.chance(65), canonical_pct: ch.pick(&[85, 60, 100, 0]), max_day_offset: 30, long_pct: 4, ..Cfg::default() };
+    let cfg = Cfg { max_rules: 5, base_year, dense: ch.chance(65), canonical_pct: ch.pick(&[85, 60, 100, 0]), max_day_offset: 30, long_pct: 4, repeat_pct: 6, ..Cfg::default() };
     let g = gen_case(ch, &cfg)?;
     case.key = g.text.clone();
     label_expr(&g.ast, case);
